@@ -106,7 +106,18 @@ impl KNumber {
                 if b < 0 {
                     F64((a as f64).powf(b as f64))
                 } else {
-                    I64(a.wrapping_pow(b as u32))
+                    // Wrapping power for the full (non-negative) i64 exponent.
+                    // `i64::wrapping_pow` takes a u32, and `b as u32` would silently truncate
+                    // exponents >= 2^32 (e.g. `2 ^ 4294967296` would be `2 ^ 0`).
+                    let (mut base, mut exponent, mut result) = (a, b as u64, 1_i64);
+                    while exponent > 0 {
+                        if exponent & 1 == 1 {
+                            result = result.wrapping_mul(base);
+                        }
+                        base = base.wrapping_mul(base);
+                        exponent >>= 1;
+                    }
+                    I64(result)
                 }
             }
         }
